@@ -64,7 +64,10 @@ def write_cfg(path, spec="Spec", constants=None, invariants=(), properties=(), c
     if constants:
         lines.append("CONSTANTS")
         for k, v in constants.items():
-            lines.append("  %s = %s" % (k, tla_value(v)))
+            if isinstance(v, str) and v.startswith("<-"):          # operator parameter replaced by a definition of the root module
+                lines.append("  %s <- %s" % (k, v[2:].strip()))
+            else:
+                lines.append("  %s = %s" % (k, tla_value(v)))
     for i in invariants:
         lines.append("INVARIANT %s" % i)
     for p in properties:
